@@ -187,7 +187,7 @@ func Alphabet(fam *Family, inU bool, files []int) []Block {
 		if inU && e.onlyInD() {
 			continue
 		}
-		if e == EPkgVarDirect && fam.Name != "CTOR" {
+		if (e == EPkgVarDirect || e == EPkgVarDirectRev) && fam.Name != "CTOR" {
 			continue
 		}
 		for _, f := range files {
